@@ -47,7 +47,9 @@ Skeletons ==
     \cup {<<"d", "..", "..", "root", "..", nm>> : nm \in SecretNames}
     \cup {<<"up">>, <<"upd", "s3">>, <<"upd", "..", "s2">>, <<"upd", "..", "s1">>, <<"in">>, <<"in", "..", "..", "s1">>,
           <<"%2e%2e", "s1">>, <<"%2E%2E", "s1">>, <<"..%2f", "s1">>, <<"..%2fs1">>, <<"%2e%2e%2fs1">>, <<"..;", "s1">>,
-          <<"..", "..", "l2", "s2">>, <<"..", "l2", "..", "s1">>}
+          <<"..", "..", "l2", "s2">>, <<"..", "l2", "..", "s1">>,
+          <<"..", "root-private", "s4">>, <<"..", "root.bak">>, <<"d", "..", "..", "root-private", "s4">>, <<"..", "root-private", "..", "root.bak">>,
+          <<"..", "root", "f.txt">>, <<"d", "..", "f.txt">>}      \* the last two re-enter / stay inside: free for C01 unless bytes of a secret appear
 \* (c) one-segment spellings that only climb if the server decodes them: an encoded (or doubly encoded, or
 \*     back-slash) separator glued to plain or encoded dots.  The specification has no decoding step, so each is an
 \*     ordinary (absent) name and must never produce secret bytes.
@@ -89,9 +91,14 @@ Variants(W, n) ==
     \cup (IF nd.stem # "" THEN {[p EXCEPT ![last] = nd.stem], [p EXCEPT ![last] = nd.stem] \o <<"">>} ELSE {})
 C02Paths(W) == UNION {Variants(W, n) : n \in InsideNodes(W)} \cup ViaLinks(W)
                 \cup {<<>>, <<"">>, <<"", "">>, <<"nx", "index.html">>, <<"404.html">>}
+\* (a query or fragment that looks like a path or carries an extension must not influence lookup or media type)
 C02QF == {<<"", "">>, <<"?q=1", "">>, <<"", "#top">>, <<"?k=v&x=%2F", "#f">>}
+\* on one world: queries / fragments that look like paths, carry extensions or dot-segments, or are empty
+C02QFx == {<<"?v=1.css", "">>, <<"?p=/a/b.png", "#x.js">>, <<"?", "">>, <<"?next=/docs/../about", "">>, <<"", "#/../top">>, <<"?back=/..", "">>,
+           <<"?a=..", "#..">>, <<"?u=http://h/x/./y", "">>}
 C02Cases(u) ==
     UNION {{Req(W.id, "prod", "GET", "/", s, qf[1], qf[2], NoRange, "") : qf \in C02QF, s \in C02Paths(W)} : W \in C02Worlds}
+    \cup {Req(23, "prod", "GET", "/", s, qf[1], qf[2], NoRange, "") : qf \in C02QFx, s \in C02Paths(FlatWorld(23))}
 
 -----------------------------------------------------------------------------
 \* C03: every single spec with offsets from {0,1,L-2,L-1,L,L+1,u64max,>u64max,junk}; pairs from a reduced set
@@ -122,6 +129,12 @@ C03Cases(u) ==
     \cup {Req(31, "prod", "GET", "/", <<RangeName(i)>>, "", "", [Rng(<<s>>) EXCEPT !.unit_ok = FALSE], "") :
             i \in {1, 5}, s \in {FL(Num(0), Num(0)), Fo(Num(0))}}
     \cup {Req(31, "prod", "GET", "/", <<RangeName(i)>>, "", "", Rng(<<>>), "") : i \in {1, 5}}
+    \* the NUMBER of specs around powers of two (a server-side cap must not silently drop parts)
+    \cup {Req(31, "prod", "GET", "/", <<RangeName(5)>>, "", "", Rng([j \in 1..n |-> FL(Num((j - 1) % 10), Num((j - 1) % 10))]), "") :
+            n \in (IF K >= 3 THEN {4, 8, 9, 16, 17, 32, 33, 64, 65, 100, 129} ELSE {9, 17, 33, 65})}
+    \cup UNION {{Req(21, "prod", "GET", "/", sg[1], "", "", Rng(ss), "") : ss \in {<<x>> : x \in Reduced(sg[2])} \cup {<<FL(Num(0), Num(1)), Su(Num(2))>>}}
+               : sg \in {<<<<"docs">>, 8192>>, <<<<"docs", "">>, 8192>>, <<<<"page">>, 4096>>, <<<<"lnk">>, 256>>, <<<<"ldir", "readme.md">>, 4095>>,
+                          <<<<"docs", "deep", "deep">>, 5>>}}
 
 -----------------------------------------------------------------------------
 \* C09: GET / HEAD / OPTIONS triples for every servable path, with and without Origin / preflight / Range
@@ -151,7 +164,7 @@ Cases == CASE Mode = "c02" -> C02Cases(0)
            [] Mode = "c03" -> C03Cases(0)
            [] Mode = "c09" -> C09Cases(0)
 
-UsedWorlds == CASE Mode = "c01" -> C01Worlds [] Mode = "c02" -> C02Worlds [] Mode = "c03" -> {RangeWorld}
+UsedWorlds == CASE Mode = "c01" -> C01Worlds [] Mode = "c02" -> C02Worlds [] Mode = "c03" -> {RangeWorld, MixWorld(21, FALSE)}
                 [] Mode = "router" -> RouterWorlds
                 [] Mode = "c09" -> {MixWorld(21, FALSE), FlatWorld(23)}
 
